@@ -43,11 +43,23 @@ def build_graph(
             style = BLOB_NODE_STYLE
         if present_blobs:
             style = BLOB_NODE_STYLE if n.node_hash in present_blobs else EVAL_NODE_STYLE
-        g.add_node(pydot.Node(name=str(n.path), **style))
+        g.add_node(pydot.Node(name=_dot_id(n.path), **style))
     for e in s.deps:
         style = _edge_styles[e.edge_type]
-        g.add_edge(pydot.Edge(src=str(e.from_path), dst=str(e.to_path), **style))
+        g.add_edge(
+            pydot.Edge(src=_dot_id(e.from_path), dst=_dot_id(e.to_path), **style)
+        )
     return g
+
+
+def _dot_id(path: DDSPath) -> str:
+    """
+    The name of a path as a quoted identifier of the dot language.
+
+    Unquoted, pydot reads what follows a colon in the name of a node as a port ('/data/a:b' became the node
+    '/data/a'), and it does not quote names consistently between nodes and edges.
+    """
+    return '"' + str(path).replace("\\", "\\\\").replace('"', '\\"') + '"'
 
 
 def draw_graph(
